@@ -31,6 +31,11 @@ def gen(src, tier):
             quad.append([[src.randint("a", 0, D - 1), src.randint("b", 0, D - 1), src.rounded("q", -0.15, 0.15)]
                          for _ in range(src.randint("nq", 1, 2))])
     mean = [src.rounded("mean", -1.0, 1.0) for _ in range(D)]
+    origin = src.weighted("origin", [("no", 4), ("zero", 1), ("tiny", 1)])
+    if origin == "zero":  # e.g. an IVP started at rest: mean and start point at the origin, constraint not satisfied there
+        mean = [0.0] * D
+    elif origin == "tiny":
+        mean = [x * 1e-13 for x in mean]
     L = [[(src.rounded("l", -1.0, 1.0) if j <= i else 0.0) for j in range(D)] for i in range(D)]
     for i in range(D):
         L[i][i] = abs(L[i][i]) + 0.2
@@ -51,7 +56,8 @@ def gen(src, tier):
         tol = src.choice("tol0", [0.0, 1e-300])
         maxiter = src.randint("maxiter_small", 1, 12)
     return {"D": D, "m": m, "kind": kind, "G": G, "c": c, "quad": quad, "mean": mean, "L": L, "singular": singular,
-            "tol": tol, "maxiter": maxiter, "budget": budget, "x0": src.choice("x0", ["mean", "random"]),
+            "tol": tol, "maxiter": maxiter, "budget": budget, "origin": origin,
+            "x0": "mean" if origin != "no" else src.choice("x0", ["mean", "random"]),
             "x0v": [src.rounded("x0", -1.0, 1.0) for _ in range(D)]}
 
 
@@ -172,6 +178,7 @@ def execute(sc):
                 viol.append({"inv": "GN-taylorpoint", "msg": f"taylor_point_maximum_a_posteriori differs from the conditional mean for an affine constraint: {e:.2e}"})
             probes["taylor_point_checked"] = 1
     probes["singular_weight"] = int(sc["singular"] != "no")
+    probes["mean_at_origin"] = int(sc.get("origin", "no") != "no")
     return {
         "violations": viol[:6],
         "stats": {"iterations": observed},
@@ -180,7 +187,7 @@ def execute(sc):
         "abstract": f"{sc['kind']}:{D}x{m}:it{observed}",
         "abstract_key": digest_of([sc["G"], sc["mean"], sc["tol"], sc["maxiter"]]),
         "nontrivial": observed >= 1,
-        "cell": f"{sc['kind']}|D{D}|m{m}|{sc['singular']}|{sc['budget']}|x0{sc['x0']}",
+        "cell": f"{sc['kind']}|D{D}|m{m}|{sc['singular']}|{sc['budget']}|x0{sc['x0']}|origin{sc.get('origin', 'no')}",
         "mode": "loop-seam",
         "digest": digest_of([observed, [float(v) for v in x]]),
         "sample": {"D": D, "m": m, "kind": sc["kind"], "tol": tol, "maxiter": maxiter, "iters": observed, "singular": sc["singular"]},
